@@ -182,3 +182,72 @@ def cmp_value(body, atom, sym, rank):
             return UNKNOWN
         return CMP_OPS[op](ra, rb)
     return UNKNOWN
+
+
+# ---------------------------------------------------------------------------
+# boolean store tables: value of a bool operand per finite valuation of symbols
+# ---------------------------------------------------------------------------
+
+class Unknown(Exception):
+    pass
+
+
+def eval_bool(body, x, env, sym, at_bb=None, depth=0):
+    """Value (True/False) of boolean operand/place `x` under env (symbol -> bool), where
+    sym(root) names the symbolic inputs.  A local with several definitions takes the definition
+    whose guards (switch decisions that dominate it) are consistent with env; inconsistent or
+    uninterpretable shapes raise Unknown (callers fail closed)."""
+    if depth > 20:
+        raise Unknown("too deep")
+    if x.get("k") == "const":
+        if "int" in x:
+            return bool(x["int"])
+        raise Unknown("non-integer constant")
+    place = x["place"] if x.get("k") in ("copy", "move") else x
+    rs = prov(body, place)
+    if rs and all(sym(r) is not None for r in rs) and len(set(sym(r) for r in rs)) == 1 and \
+            not any(set(r.via) - {"φ"} for r in rs):
+        s = sym(next(iter(rs)))
+        if s in env:
+            return env[s]
+    l = place["l"]
+    if place["p"]:
+        raise Unknown("projection on a computed place: %s" % sorted(mir.show_root(r) for r in rs))
+    defs = [d for d in body.defs().get(l, []) if not d[3]["p"]]
+    vals = set()
+    for dk, dbb, di, dpl, payload in defs:
+        if not guards_consistent(body, dbb, env, sym):
+            continue
+        if dk != "assign":
+            raise Unknown("value produced by a call: %s" % (mir.callee(payload) or "?"))
+        vals.add(eval_rvalue(body, payload, env, sym, dbb, depth + 1))
+    if len(vals) != 1:
+        raise Unknown("no single consistent definition (%d candidates)" % len(vals))
+    return vals.pop()
+
+
+def eval_rvalue(body, rv, env, sym, at_bb=None, depth=0):
+    k = rv["k"]
+    if k == "use":
+        return eval_bool(body, rv["op"], env, sym, at_bb, depth + 1)
+    if k == "unop" and rv["op"] == "Not":
+        return not eval_bool(body, rv["x"], env, sym, at_bb, depth + 1)
+    if k == "binop" and rv["op"] in ("BitOr", "BitAnd", "BitXor", "Eq", "Ne"):
+        a = eval_bool(body, rv["l"], env, sym, at_bb, depth + 1)
+        b = eval_bool(body, rv["r"], env, sym, at_bb, depth + 1)
+        return {"BitOr": a or b, "BitAnd": a and b, "BitXor": a != b, "Eq": a == b, "Ne": a != b}[rv["op"]]
+    raise Unknown("unrecognised boolean rvalue %s" % k)
+
+
+def guards_consistent(body, bb, env, sym):
+    """every *interpretable* switch decision that dominates bb agrees with env"""
+    for a in mir.guards_at(body, bb):
+        if is_flag_atom(a):
+            continue
+        if a.kind == "bool":
+            ss = set(sym(r) for r in a.subject)
+            if len(ss) == 1 and None not in ss:
+                s = ss.pop()
+                if s in env and env[s] not in a.label:
+                    return False
+    return True
